@@ -5,21 +5,29 @@ Import ListNotations.
 Open Scope N_scope.
 
 (* ---- splitting a PES payload into data units ---- *)
-Lemma units_fuel_enc us : forall fuel, (length (concat (map enc_unit us)) <= fuel)%nat ->
-  ttx_units_fuel fuel (concat (map enc_unit us)) = us.
+Lemma units_fuel_trail g fuel : trail_ok g = true -> ttx_units_fuel fuel g = [].
 Proof.
-  induction us as [|[id d] r IH]; intros fuel Hf.
-  - cbn [map concat]. destruct fuel; reflexivity.
+  intros H. destruct fuel as [|f]; [reflexivity|]. cbn [ttx_units_fuel]. destruct g as [|a [|len rest]]; try reflexivity.
+  cbn [trail_ok] in H. rewrite H. reflexivity.
+Qed.
+Lemma units_fuel_enc us g : trail_ok g = true -> forall fuel, (length (concat (map enc_unit us) ++ g) <= fuel)%nat ->
+  ttx_units_fuel fuel (concat (map enc_unit us) ++ g) = us.
+Proof.
+  intros Hg. induction us as [|[id d] r IH]; intros fuel Hf.
+  - cbn [map concat app]. apply units_fuel_trail. exact Hg.
   - cbn [map concat enc_unit fst snd app] in *. destruct fuel as [|f]; [cbn [length] in Hf; lia|].
-    cbn [ttx_units_fuel]. rewrite Nat2N.id.
-    assert (Hlen : Nat.ltb (length (d ++ concat (map enc_unit r))) (length d) = false).
+    cbn [ttx_units_fuel]. rewrite Nat2N.id. rewrite <- app_assoc.
+    assert (Hlen : Nat.ltb (length (d ++ concat (map enc_unit r) ++ g)) (length d) = false).
     { apply Nat.ltb_ge. rewrite app_length. lia. }
     rewrite Hlen. rewrite firstn_app, Nat.sub_diag, firstn_all. cbn [firstn]. rewrite app_nil_r.
     rewrite skipn_app, Nat.sub_diag, skipn_all. cbn [skipn app]. f_equal.
-    apply IH. cbn [length] in Hf. rewrite app_length in Hf. lia.
+    apply IH. cbn [length] in Hf. rewrite <- app_assoc, app_length in Hf. lia.
 Qed.
+(* the complete units come back, a truncated last unit is dropped *)
+Theorem units_enc_trail us g : trail_ok g = true -> ttx_units (concat (map enc_unit us) ++ g) = us.
+Proof. intros Hg. unfold ttx_units. apply units_fuel_enc; [exact Hg | apply Nat.le_refl]. Qed.
 Theorem units_enc us : ttx_units (concat (map enc_unit us)) = us.
-Proof. unfold ttx_units. apply units_fuel_enc. apply Nat.le_refl. Qed.
+Proof. rewrite <- (app_nil_r (concat (map enc_unit us))). apply units_enc_trail. reflexivity. Qed.
 
 (* ---- packet address codec ---- *)
 Lemma ham84_dec_enc_spec n : n < 16 -> ham84_dec (ham84_enc n) = Some n.
